@@ -19,7 +19,7 @@ SerOk(r) == /\ \A i \in 1..Len(r.texts) : TextOk(r, r.texts[i])
             /\ r.bad_len = 0 /\ r.bad_null = 0 /\ r.bad_reparse = 0 /\ r.bad_reser = 0
 StepOfImpl(s, r) == [ok |-> SerOk(r), st |-> s]
 TraceLog == ndJsonDeserialize(IOEnv.TRACE)
-T == INSTANCE TraceBase WITH Log <- TraceLog, InitSt <- 0, StepOf <- StepOfImpl
+T == INSTANCE TraceBase WITH Log <- TraceLog, InitSt <- 0, StepOf <- StepOfImpl, ResyncAtNew <- FALSE
 Spec == T!Spec
 Done == T!Done
 ====
